@@ -50,6 +50,20 @@ def PulseDisjoint (circular : Bool) (N : ℕ) (isQ : List (Instr Rat)) (st0 : Li
     (∃ q, q ∈ chanQubits circular N isQ[a] ∧ q ∈ chanQubits circular N isQ[b]) →
     st0.getD a 0 + isQ[a].dur ≤ st0.getD b 0 ∨ st0.getD b 0 + isQ[b].dur ≤ st0.getD a 0
 
+/-- instructions whose GATES share a qubit (`used_qubits` of the two instructions intersect — C11's `timetable_valid`) do not
+overlap in time -/
+def GateDisjoint (isQ : List (Instr Rat)) (st0 : List Rat) : Prop :=
+  ∀ a b (ha : a < isQ.length) (hb : b < isQ.length), a ≠ b → Shares isQ[a].gate isQ[b].gate →
+    st0.getD a 0 + isQ[a].dur ≤ st0.getD b 0 ∨ st0.getD b 0 + isQ[b].dur ≤ st0.getD a 0
+
+/-- for instructions whose channel Hamiltonians act on qubits of their gates, C11's condition implies `PulseDisjoint` -/
+theorem pulseDisjoint_of_gateDisjoint (circular : Bool) (N : ℕ) (isQ : List (Instr Rat)) (st0 : List Rat)
+    (hq : ∀ i ∈ isQ, ∀ q ∈ chanQubits circular N i, q ∈ i.gate.qubits) (h : GateDisjoint isQ st0) :
+    PulseDisjoint circular N isQ st0 := by
+  intro a b ha hb hab hsh
+  obtain ⟨q, h1, h2⟩ := hsh
+  exact h a b ha hb hab ⟨q, hq _ (List.getElem_mem ha) q h1, hq _ (List.getElem_mem hb) q h2⟩
+
 /-- **pulses_product.**  Rational instruction list `isQ` (positive durations) whose real cast has the ideal propagators
 `ws`; any injective numbering `enc` of the pulse labels; any scheduler answer `sch` that `_schedule` accepts; the channels
 `groups` the grouping loop builds, each with idle gaps `0` or above `time_tol` (`ValidG`, C12); pulses on a common qubit
